@@ -2,7 +2,8 @@
 //
 // The harness arms at most one plan: the `nth` time the point `name` is reached the calling
 // thread either panics or is told to return from the function it is in. Unarmed, `hit` is a
-// counter increment and nothing else.
+// counter increment and nothing else. Independently of the plan, one delay may be armed: the `nth`
+// time a point is reached the calling thread sleeps (a slow thread, so that messages queue up).
 
 use std::collections::HashMap;
 use std::sync::Mutex;
@@ -21,6 +22,7 @@ struct Plan {
 
 struct State {
     plan: Option<Plan>,
+    delay: Option<(String, u64, u64)>,
     counts: HashMap<String, u64>,
     fired: bool,
 }
@@ -32,9 +34,18 @@ pub fn arm(plan: Option<(&str, u64, Fault)>) {
     let mut st = STATE.lock().unwrap_or_else(|e| e.into_inner());
     *st = Some(State {
         plan: plan.map(|(name, nth, fault)| Plan { name: name.to_owned(), nth, fault }),
+        delay: None,
         counts: HashMap::new(),
         fired: false,
     });
+}
+
+/// Arm (after `arm`) a delay: the `nth` time `name` is reached the calling thread sleeps `ms` milliseconds.
+pub fn arm_delay(name: &str, nth: u64, ms: u64) {
+    let mut st = STATE.lock().unwrap_or_else(|e| e.into_inner());
+    if let Some(s) = st.as_mut() {
+        s.delay = Some((name.to_owned(), nth, ms));
+    }
 }
 
 /// Whether the armed plan has fired, and how often each point was reached.
@@ -52,7 +63,7 @@ pub fn report() -> (bool, Vec<(String, u64)>) {
 
 /// Returns true when the caller must return; panics when the plan says so.
 pub fn hit(name: &str) -> bool {
-    let fault = {
+    let (fault, sleep_ms) = {
         let mut st = STATE.lock().unwrap_or_else(|e| e.into_inner());
         let s = match st.as_mut() {
             Some(s) => s,
@@ -61,14 +72,21 @@ pub fn hit(name: &str) -> bool {
         let c = s.counts.entry(name.to_owned()).or_insert(0);
         let seen = *c;
         *c += 1;
-        match &s.plan {
+        let sleep_ms = match &s.delay {
+            Some((n, nth, ms)) if n == name && *nth == seen => *ms,
+            _ => 0,
+        };
+        (match &s.plan {
             Some(p) if !s.fired && p.name == name && p.nth == seen => {
                 s.fired = true;
                 Some(p.fault)
             }
             _ => None,
-        }
+        }, sleep_ms)
     };
+    if sleep_ms > 0 {
+        std::thread::sleep(std::time::Duration::from_millis(sleep_ms));
+    }
     match fault {
         Some(Fault::Panic) => panic!("verif fault injected at {}", name),
         Some(Fault::Return) => true,
